@@ -3,14 +3,14 @@
 ALL = "NoEarlyAck WellFormed NoDup SourceOrder AllDelivered AckMonotone AckBounded"
 FAULT = "NoUnexplainedEarlyAck WellFormed"
 def cfg(name, src="{s1}", tgt="{t1, t2}", maxid=2, maxbatch=2, maxwm=1, chancap=2, ackcap=1, faults=0,
-        srcfaults="FALSE", late="{}", invs=ALL, depth=None, seedfix="TRUE", idle=0, hold="FALSE"):
+        srcfaults="FALSE", late="{}", invs=ALL, depth=None, seedfix="TRUE", idle=0, hold="FALSE", holdack="FALSE"):
     sim = depth is not None
     out = ("INIT SimInit\nNEXT SimNext\n" if sim else "SPECIFICATION Spec\n")
     out += "CONSTANTS\n  Src = %s\n  Tgt = %s\n  MaxId = %d\n  MaxBatch = %d\n  MaxWm = %d\n  ChanCap = %d\n  AckCap = %d\n" % (
         src, tgt, maxid, maxbatch, maxwm, chancap, ackcap)
     out += "  MaxFaults = %d\n  SrcFaults = %s\n  LateTgt = %s\n  SeedFix = %s\n" % (faults, srcfaults, late, seedfix)
     if sim:
-        out += "  Depth = %d\n  MaxIdle = %d\n  HoldClose = %s\n" % (depth, idle, hold)
+        out += "  Depth = %d\n  MaxIdle = %d\n  HoldClose = %s\n  HoldAck = %s\n" % (depth, idle, hold, holdack)
     else:
         out += "SYMMETRY Sym\nINVARIANTS %s\n" % invs
     out += "CHECK_DEADLOCK FALSE\n"
@@ -35,6 +35,7 @@ cfg("sim_c01", depth=7)
 cfg("sim_c01_t", src="{s1, s2}", maxid=3, maxwm=2, chancap=4, ackcap=2, depth=14)
 cfg("sim_c03", maxid=2, maxbatch=1, maxwm=2, depth=14)          # two watermarks: late first acks, clamps
 cfg("sim_c03i", maxid=2, maxbatch=1, maxwm=2, depth=15, idle=1)  # ... followed by an idle second (receiver keep-alive)
+cfg("sim_c01a", src="{s1, s2}", tgt="{t1}", maxid=2, maxbatch=1, maxwm=0, chancap=4, ackcap=2, depth=14, holdack="TRUE")  # a receiver held in Send
 cfg("sim_c02", late="{t2}", depth=8)
 cfg("sim_c02b", src="{s1, s2}", maxid=1, depth=8)
 cfg("sim_c02i", maxid=3, maxwm=1, depth=9, idle=1)           # with one idle second (keep-alives fire)
